@@ -44,7 +44,10 @@ def cmd_check(prop, tier, seed):
     mod = importlib.import_module(prop.lower())
     res = common.Result(prop, tier, seed)
     try:
+        import time as _t
+        _t0 = _t.time()
         broken = common.proof_stage(res, prop, getattr(mod, "EXTRA_TARGETS", ()))
+        res.notes["seconds_proof_stage"] = round(_t.time() - _t0, 1)
         for b in broken:
             res.no_input.append(b)
         skip_corr = bool(broken) and not getattr(mod, "RUN_WHEN_BROKEN", True)
